@@ -69,7 +69,7 @@ func init() {
 	// and a second call in the same process after a failed one.
 	regStream("e2e.C05", func(r *rand.Rand, n int, emit func(string, ...string)) {
 		for i := 0; i < n; i++ {
-			emit("c05.gen", strconv.Itoa(i%8), strconv.Itoa(2+r.Intn(4)), strconv.Itoa(r.Intn(1000)))
+			emit("c05.gen", strconv.Itoa(i%16), strconv.Itoa(2+r.Intn(4)), strconv.Itoa(r.Intn(1000)))
 		}
 	})
 	regImpl("c05.gen", func(a []string) string {
@@ -81,6 +81,17 @@ func init() {
 			// Item book: the referred sheet
 			w.writeCSVBook("", bookSpec{Name: "Item", Sheets: []sheetSpec{{Name: "ItemConf", Rows: [][]string{
 				{"ID", "Name"}, {"map<uint32, Item>", "string"}, {"id", "name"}, {"1", "a"}, {"2", "b"}, {"3", "c"}}}}})
+			// an enum type sheet; in variants with bit 8 two of its values share one alias (E2021 when an alias is looked up)
+			enumRows := [][]string{{"Number", "Name", "Alias"}, {"1", "FRUIT_TYPE_APPLE", "Apple"}, {"2", "FRUIT_TYPE_PEAR", "Pear"}}
+			if variant&8 == 8 {
+				enumRows = append(enumRows, []string{"3", "FRUIT_TYPE_CRAB_APPLE", "Apple"})
+			}
+			w.writeCSVBook("", bookSpec{Name: "Base", Sheets: []sheetSpec{{Name: "FruitType", Rows: enumRows, Meta: map[string]string{"Mode": "MODE_ENUM_TYPE"}}}})
+			for b := 0; b < nbooks; b++ {
+				// several books look the alias up, concurrently
+				w.writeCSVBook("", bookSpec{Name: fmt.Sprintf("Fruit%d", b), Sheets: []sheetSpec{{Name: fmt.Sprintf("Fruit%dConf", b), Rows: [][]string{
+					{"ID", "Kind"}, {fmt.Sprintf("map<uint32, Fruit%d>", b), "enum<.FruitType>"}, {"id", "kind"}, {"1", "Apple"}, {"2", "Pear"}}}}})
+			}
 			for b := 0; b < nbooks; b++ {
 				refer := "ItemConf.ID"
 				// variants: broken refers in one or several books (unknown sheet / unknown column)
@@ -109,6 +120,9 @@ func init() {
 			defer w2.cleanup()
 			w2.writeCSVBook("", bookSpec{Name: "Item", Sheets: []sheetSpec{{Name: "ItemConf", Rows: [][]string{
 				{"ID", "Name"}, {"map<uint32, Item>", "string"}, {"id", "name"}, {"1", "a"}}}}})
+			w2.writeCSVBook("", bookSpec{Name: "Base", Sheets: []sheetSpec{{Name: "FruitType", Rows: [][]string{{"Number", "Name", "Alias"}, {"1", "FRUIT_TYPE_APPLE", "Apple"}}, Meta: map[string]string{"Mode": "MODE_ENUM_TYPE"}}}})
+			w2.writeCSVBook("", bookSpec{Name: "Fruit", Sheets: []sheetSpec{{Name: "FruitConf", Rows: [][]string{
+				{"ID", "Kind"}, {"map<uint32, Fruit>", "enum<.FruitType>"}, {"id", "kind"}, {"1", "Apple"}}}}})
 			w2.writeCSVBook("", bookSpec{Name: "Reward", Sheets: []sheetSpec{{Name: "RewardConf", Rows: [][]string{
 				{"ID", "ItemID"}, {"map<uint32, Reward>", "uint32|{refer:\"ItemConf.ID\"}"}, {"id", "item"}, {"1", "1"}}}}})
 			if err := w2.genProto(ro); err == nil {
